@@ -21,7 +21,7 @@ RULE = ("Hypothesis RuleBasedStateMachine over one temporary results file: rule 
         "every save: get_outputs_from_file has exactly the model's names; data and actions equal the saved arrays (shape, values, NaN "
         "positions; compared as float64); metadata equals json.loads(json.dumps(original metadata, default=json_serializer)); "
         "Output.from_file agrees; entries saved earlier are the same JSON objects as before; a repeated name changes nothing. "
-        "Command level: solve / greedy / ugreedy / best_states run through the real CLI parser on small configurations with the evaluation / "
+        "Full save() pipeline (plots + JSON + coalition charts) on NaN-padded matrices: read-back equals what was handed in and the caller's arrays are unaltered. Command level: solve / greedy / ugreedy / best_states run through the real CLI parser on small configurations with the evaluation / "
         "search function wrapped by a recording spy: what is read back equals what the spy saw returned. Non-trivial: >= 3 saves with "
         "a repeated name and a matrix containing NaN; distinct = hash of the save history.")
 LEVEL_TEXT = ("Model-based stateful search over save histories with a dictionary model and a byte-level 'earlier entries unchanged' "
@@ -160,10 +160,65 @@ def _json_eq(a, b) -> bool:
     return type(a) == type(b) and a == b or (isinstance(a, (int, float)) and isinstance(b, (int, float)) and not isinstance(a, bool) and not isinstance(b, bool) and a == b)
 
 
+def _check_fullsave(case: dict) -> Result:
+    """The whole save() pipeline (plots, JSON, coalition charts) on fresh names, with NaN-padded gap matrices: what is read
+    back must be what was handed to save(), and the caller's arrays must not have been altered."""
+    import numpy as np
+    from incomplete_cooperative.run.save import get_outputs_from_file, save
+    res = Result()
+    d = Path(tempfile.mkdtemp(prefix="vp-c19f-"))
+    try:
+        expected = {}
+        for i, (name, spec) in enumerate(case["saves"]):
+            out = make_output(spec)
+            data_before, actions_before = out.data.copy(), out.actions.copy()
+            try:
+                save(d, name, out)
+            except FileExistsError:
+                if name not in expected:
+                    raise
+                res.label("repeated-name-plot-dir-exists(accepted)")
+            if not arrays_equal(out.data, data_before) or not arrays_equal(out.actions, actions_before):
+                res.fail(f"save-mutates-caller-arrays :: save {i} ({name!r}): the Output's matrices were altered by save()")
+            expected.setdefault(name, (data_before, actions_before))
+            outs = get_outputs_from_file(d / "data.json")
+            if set(outs) != set(expected):
+                res.fail(f"names :: after save {i}: file holds {sorted(outs)}, expected {sorted(expected)}")
+                break
+            for k, (e, a) in expected.items():
+                if not arrays_equal(outs[k].data, e):
+                    res.fail(f"data-roundtrip :: entry {k!r} through save(): read {np.asarray(outs[k].data).tolist()} saved {e.tolist()}")
+                if not arrays_equal(outs[k].actions, a):
+                    res.fail(f"actions-roundtrip :: entry {k!r} through save(): read {np.asarray(outs[k].actions).tolist()} saved {a.tolist()}")
+            if res.failures:
+                break
+    finally:
+        shutil.rmtree(d, ignore_errors=True)
+    res.nontrivial = len(case["saves"]) >= 2 and any(any(x != x for x in s_["data"]["flat"]) for _, s_ in case["saves"])
+    res.label("full-save")
+    return res
+
+
+@st.composite
+def fullsave_cases(draw):
+    """Outputs shaped like real runs: gap matrix (steps+1) x repetitions with NaN padding, action ids of a small game."""
+    saves = []
+    names = draw(st.lists(st.sampled_from(["run1", "run2", "lr0.1", "lr0.2", "2024-01-01T00:00:00.5", "ü"]), min_size=2, max_size=3))
+    for name in names:
+        rows, cols = draw(st.integers(2, 4)), draw(st.integers(1, 3))
+        flat = [draw(st.one_of(st.floats(0, 50, allow_nan=False), st.just(float("nan")), st.integers(0, 9).map(float))) for _ in range(rows * cols)]
+        acts = [float(draw(st.sampled_from([3, 5, 6, 7, 9, 10, 11, 12, 13, 14]))) for _ in range((rows - 1) * cols)]
+        saves.append([name, {"data": {"shape": [rows, cols], "flat": flat}, "actions": {"shape": [rows - 1, cols], "flat": acts},
+                             "meta": {"number_of_players": 4, "solver": "greedy"}, "func": "eval"}])
+    return {"kind": "fullsave", "saves": saves}
+
+
 @guarded
 def check_case(case: dict) -> Result:
     if case.get("kind") == "command":
         return _check_command(case)
+    if case.get("kind") == "fullsave":
+        return _check_fullsave(case)
     res = Result()
     sim = Sim()
     try:
@@ -369,12 +424,15 @@ def command_cases(draw):
 
 def plan(tier: str) -> list[dict]:
     if tier == "quick":
-        return [{"mode": "machine", "examples": 120, "steps": 8, "cost": 4} for _ in range(4)] + [{"mode": "command", "examples": 3, "cost": 6} for _ in range(3)]
-    return [{"mode": "machine", "examples": 2000, "steps": 12, "cost": 10} for _ in range(11)] + [{"mode": "command", "examples": 25, "cost": 12} for _ in range(5)]
+        return ([{"mode": "machine", "examples": 120, "steps": 8, "cost": 4} for _ in range(4)] + [{"mode": "command", "examples": 3, "cost": 6} for _ in range(3)]
+                + [{"mode": "fullsave", "examples": 6, "cost": 6} for _ in range(2)])
+    return [{"mode": "machine", "examples": 2000, "steps": 12, "cost": 10} for _ in range(11)] + [{"mode": "command", "examples": 25, "cost": 12} for _ in range(3)] + [{"mode": "fullsave", "examples": 60, "cost": 12} for _ in range(2)]
 
 
 def run_shard(spec: dict, ctx: Ctx) -> None:
-    if spec["mode"] == "machine":
+    if spec["mode"] == "fullsave":
+        ctx.run_given(fullsave_cases(), check_case, spec["examples"], shrink=False)
+    elif spec["mode"] == "machine":
         ctx.run_machine(make_machine(), spec["examples"], spec["steps"])
     else:
         ctx.run_given(command_cases(), check_case, spec["examples"], shrink=False)
